@@ -9,3 +9,6 @@ import Eliot.Properties.C14
 #print axioms VM.tracebacks_fail
 #print axioms VM.check_for_errors_iff
 #print axioms VM.default_logger_restored
+#print axioms VM.default_logger_untouched
+#print axioms VM.validateAllS_fst
+#print axioms VM.invalid_after_reset_reported
